@@ -9,14 +9,14 @@ from ..ctx import jdump, repo_frame_bucket
 from ..shrink import ddmin
 
 SHAPES = ["", "abc", "7", "-3", "1.5", "1e9", "99999999999", "999999999999999999999999", "a/b/c", "../x", "{{PAGENAME}}",
-          "2^99999999", "1e999999999", "9e9e9"]
+          "2^99999999", "1e999999999", "9e9e9", "xrY", "9999"]
 LANGS = "de en es fr it ja nl no pl pt simple sv".split()
 
 META = dict(
     level="exploration",
     rule=(
         "(1) call matrix: every upper-case/#-attribute of MagicResolver, every magic_nodes.registry key and every alias in "
-        "siteinfo.magicwords of the site x argument count 0..3 x 14 argument shapes (empty, word, small/negative/decimal/exponent/huge "
+        "siteinfo.magicwords of the site x argument count 0..3 x 16 argument shapes (empty, word, small/negative/decimal/exponent/huge "
         "numbers, paths, nested call, expression bombs), with and without ':'; exhaustive for <= 2 arguments on en+de (thorough: all 12 "
         "languages and 3 arguments for the built-in names), sampled for 3; (2) Hypothesis universes: a page + 0-4 templates over the "
         "template alphabet (braces, pipes, parser-function names, include tags, nowiki, unbalanced braces) with self/mutual recursion "
@@ -95,10 +95,31 @@ def expand(text, lang, templates=None, pagename="Page/Sub"):
     return r, None
 
 
+KF_BLOWUP = "expansion-blowup:argument-multiplying-template-nested-deep"
+
+
+def tainted(case):
+    """a template that uses a parameter several times, called nested >= 10 deep or recursively: the expansion is
+    exponential in the nesting depth and nothing bounds it (open known finding)"""
+    t = case.get("templates") or {}
+    multiplying = [n for n, b in t.items() if b.count("{{{") >= 2]
+    if not multiplying:
+        return False
+    texts = [case["text"]] + list(t.values())
+    deep = any(x.count("{{" + n) >= 10 for x in texts for n in multiplying)
+    recursive = any(("{{" + n) in b for n in t for b in t.values())
+    return deep or recursive
+
+
 def check(ctx, case):
     r, fail = expand(case["text"], case["lang"], case.get("templates"))
+    if fail and fail[0] == "output-out-of-proportion" and case.get("templates"):
+        fail = None  # the proportion clause is about a single magic-word / parser-function call, not about templates
     if fail:
-        ctx.fail(fail[0], case, fail[1])
+        bucket = fail[0]
+        if tainted(case) and bucket.split(":")[0] in ("cpu", "exception") and ("Memory" in bucket or bucket.startswith("cpu")):
+            bucket = KF_BLOWUP
+        ctx.fail(bucket, case, fail[1])
     return r
 
 
@@ -187,6 +208,9 @@ def run_shard(ctx):
     @given(universe(lex))
     def t(case):
         ctx.announce(case)
+        if tainted(case) and ctx.is_known_open(KF_BLOWUP):
+            ctx.excluded += 1
+            return
         r = check(ctx, case)
         nt = r is not None and r != case["text"]
         labels = ["universe", "templates:%d" % len(case["templates"])]
